@@ -1,5 +1,6 @@
 """C03 - to-be-signed bytes are exactly RFC 8152 Sig_structure (section 4.4)."""
 from rules import structs_common as S
+from rules.c11 import check_is_empty, check_cbor_bstr
 from spec.rfc8152 import HELPERS, ROUTING
 
 REGISTER = True
@@ -14,7 +15,9 @@ META = {
                "type, a clone of its own stored protected header, the signer's protected header where the structure has one, the caller's "
                "AAD parameter and the right payload (embedded-or-empty for signing, required for MAC, the detached parameter only under "
                "the payload-absent check; recipient helpers only for the three recipient contexts); R-4 every public verify/create/"
-               "decrypt helper of this family calls the caller's function once with its arguments in the documented order.",
+               "decrypt helper of this family calls the caller's function once with its arguments in the documented order; R-5 the carriers "
+               "of this family decode their protected slot through the byte-retaining constructor and cbor_bstr/is_empty implement "
+               "'received bytes, else zero-length iff empty, else the encoded map' (shared with C02/C11).",
     "does_not_decide": "that ciborium's into_writer emits definite lengths and shortest heads (byte equality with an independent encoder); "
                        "injectivity of the bytes is a corollary (distinct contexts, definite-length strings, 4- vs 5-element arrays), not checked",
     "trusted_base": ["ciborium into_writer is deterministic and canonical for Text/Bytes/Array", "RFC 8152 section 4.4 as transcribed in spec/rfc8152.py",
@@ -25,7 +28,10 @@ META = {
 def check(ctx):
     S.check_context_strings(ctx, "R-1", SFN)
     S.check_assembly(ctx, "R-2", SFN)
-    S.check_routing(ctx, "R-3", SFN)
+    S.check_routing_inlined(ctx, "R-3", SFN)
+    check_is_empty(ctx, "R-2")
+    check_cbor_bstr(ctx, "R-2")
+    S.check_carriers(ctx, "R-5", ["sign::CoseSignature", "sign::CoseSign", "sign::CoseSign1"])
     n = 0
     for key, h in sorted(HELPERS.items()):
         if key.startswith(MOD):
